@@ -172,19 +172,13 @@ theorem tensor_yaml_name_kept (zero : ν) {d : Nat} (t : TRep κ ν d) (r : TRep
   cases h
   exact ⟨rfl, rfl, rfl⟩
 
-/-- The deprecated loader `Tensor(yamlfile=…)`, PARTIAL: for rank ≥ 1 it gives what
-    `Tensor.fromYAMLfile` gives (so `tensor_yaml_roundtrip` applies).  (Gap: a rank-0 file —
-    `tensor_yaml_ctor_rank0_fails`.) -/
-theorem tensor_yaml_ctor_roundtrip_partial (zero : ν) {d : Nat} (t : TRep κ ν (d + 1)) :
+/-- The deprecated loader `Tensor(yamlfile=…)` gives what `Tensor.fromYAMLfile` gives, for every
+    rank, 0 included (so `tensor_yaml_roundtrip` applies to it as well). -/
+theorem tensor_yaml_ctor_roundtrip (zero : ν) {d : Nat} (t : TRep κ ν d) :
     tensorCtorRoundtrip zero t = tensorYamlRoundtrip zero t ∧ (tensorCtorRoundtrip zero t).isSome = true := by
   obtain ⟨r, h, _⟩ := tensor_yaml_roundtrip zero t
-  have : tensorCtorRoundtrip zero t = tensorYamlRoundtrip zero t := by
-    unfold tensorCtorRoundtrip; simp
+  have : tensorCtorRoundtrip zero t = tensorYamlRoundtrip zero t := rfl
   exact ⟨this, by rw [this, h]; rfl⟩
-
-/-- the excluded class really fails: `setRoot` asserts a fiber root -/
-theorem tensor_yaml_ctor_rank0_fails (zero : ν) (t : TRep κ ν 0) : tensorCtorRoundtrip zero t = none := by
-  unfold tensorCtorRoundtrip; simp
 
 /-- `Fiber.dump` → text → `Fiber.fromYAMLfile(file, default=dflt)`: the stored tree comes back
     and is `==` the original (every fiber of the result has the default `dflt`), for every
@@ -484,7 +478,7 @@ def exRep : TRep YCoord Int 2 :=
 example : ∃ r, tensorYamlRoundtrip (0 : Int) exRep = some r ∧ r.root = cv_exTree ∧ r.name = "T" ∧ r.dflt = 7 := by
   obtain ⟨r, h, _, _, hname, hroot, hd, _⟩ := tensor_yaml_roundtrip (0 : Int) exRep
   exact ⟨r, h, hroot, hname, hd (by decide)⟩
-example : (tensorCtorRoundtrip (0 : Int) exRep).isSome = true := (tensor_yaml_ctor_roundtrip_partial (0 : Int) exRep).2
+example : (tensorCtorRoundtrip (0 : Int) exRep).isSome = true := (tensor_yaml_ctor_roundtrip (0 : Int) exRep).2
 /-- a flattened tensor: tuple coordinates and a tuple shape -/
 def exTuple : TRep YCoord Int 1 :=
   { rankIds := ["[\"A\", \"B\"]"], shape := [YCoord.tup [2, 2]], name := "", dflt := 0,
